@@ -34,6 +34,34 @@ def witness(o):
             "case": c}
 
 
+PN_SEEDS = ["places", "-70laces", "places-", "Places", "sources", "individuals-a", "individuals-", "individuals", "-69ndividuals-2da", "../x", "a/b", "a-2fb",
+            "surnames", "families", "statistics", "index", "S1", "..", ".", "a b", "-", "--", "-2d", "_"]
+
+
+def pagenames_stage(ctx, quick):
+    """PageNames.tla: the page name of a source for every pointer over a hostile alphabet (plain, never a fixed page, injective on the
+    model), every case replayed into html.PageSource."""
+    ctx.sany("PageNames")
+    def runes(s):
+        return "<<" + ", ".join("<<%s>>" % ", ".join(str(b) for b in ch.encode("utf-8")) for ch in s) + ">>"
+    tla = ("---- MODULE MC_PageNames ----\nEXTENDS PageNames\n"
+           "cRunes == {<<112>>, <<97>>, <<45>>, <<95>>, <<55>>, <<48>>, <<47>>, <<46>>, <<92>>, <<32>>, <<80>>, <<195, 169>>%s}\n"
+           "cSeeds == {%s}\n====\n" % ("" if quick else ", <<50>>, <<100>>, <<226, 130, 172>>", ", ".join(runes(x) for x in PN_SEEDS)))
+    cfg = ("SPECIFICATION Spec\nCONSTANTS\n  Runes <- cRunes\n  MaxLen = %d\n  Seeds <- cSeeds\n"
+           "INVARIANTS NameIsPlain NameIsNotReserved InjectiveOnce Emit\n" % (3 if quick else 4))
+    res, mism = common.emit_and_replay(ctx, "MC_PageNames", {"MC_PageNames.tla": tla, "MC_PageNames.cfg": cfg}, ["publish", "pagenames"], timeout=3000, sample_every=100003)
+    drift = 0
+    for mm in mism:
+        if mm["why"] == "model":
+            drift += 1
+            continue
+        clause = "file-names-are-plain" if mm["why"].startswith("file-names") else "no-two-pages-share-a-name"
+        ctx.violation({"clause": clause, "detail": "PageSource"}, "%s: source pointer %r gets the page name %r" % (mm["why"], mm["obs"]["pointer"], mm["obs"]["got"]),
+                      {"pointer": mm["obs"]["pointer"], "page": mm["obs"]["got"], "specification": mm["obs"]["want"], "other_pointer": mm["obs"]["other"]})
+    ctx.extra["pagenames_cases_replayed"] = res["cases"]
+    ctx.extra["pagenames_drift"] = drift
+
+
 def run(ctx):
     quick = ctx.tier == "quick"
     prop = ctx.prop
@@ -41,6 +69,8 @@ def run(ctx):
     for m in ("PublishOps", "Publish", "PublishCases", "PublishTrace"):
         ctx.sany(m)
     ctx.build_vh()
+    if prop == "C19":
+        pagenames_stage(ctx, quick)
     # ---- design step: the pipeline model (every interleaving of producer, workers, writer failure)
     res = ctx.tlc("MC_Publish", files=mc_pipeline("MC_Publish", 4 if quick else 5, 3), deadlock=False, timeout=3000)
     if res["violated"]:
